@@ -25,7 +25,7 @@ from ..intervals import Intervals
 from ..kernels import KERNELS, KBox
 from ..modq import ModPoly
 from ..report import Report
-from ..values import fmt, sym
+from ..values import Sym, fmt, sym
 from ..vals import NeedEnum, Unsupported
 
 
@@ -100,8 +100,14 @@ def lane_polys(L, box, K, name, ell, qs, mps, cpu='accel'):
     for k in range(4):
         offs = [o for o in roots if (o // 8) % 4 == k]
         ps = mps[k].of_many([roots[o] for o in offs])
+        I = getattr(mps[k], 'I', None)
         for o, p in zip(offs, ps):
             out[o] = p
+            if I is not None and isinstance(roots[o], Sym):
+                # the stored word is the unsigned lane: the wrap-free reading used by the congruence must be non-negative
+                rg = I.ev_all([roots[o]])[0]
+                if rg is None or rg[0] < 0:
+                    return None, 'lane at res+%d: the wrap-free reading of the stored word may be negative (%r)' % (o, rg)
     return out, None
 
 
@@ -154,6 +160,7 @@ def products(L, R, qs, tier, ells=None, rename=None):
                     return r_[1] if r_ is not None and r_[0] >= 0 else None
 
                 mp = ModPoly(q, assume, bound)
+                mp.I = I
                 holder['mp'] = mp
                 return mp
 
@@ -174,7 +181,9 @@ def products(L, R, qs, tier, ells=None, rename=None):
             for o in sorted(pr):
                 k = (o // 8) % 4
                 ncmp += 1
-                if pa.get(o) != pr[o]:
+                if pa.get(o) != pr[o] and mps[k].undecided(pa.get(o, {}), pr[o]):
+                    R.broke('%s ell=%d lane at res+%d: contains an operation the congruence rewriting does not model' % (base, ell, o))
+                elif pa.get(o) != pr[o]:
                     bad_pair = bad_pair or (ell, 'lane at res+%d: reference = %s ; AVX2 = %s (mod q%d)' % (
                         o, mps[k].show(pr[o]), mps[k].show(pa.get(o, {})), k + 1))
             if base.startswith('q120_vec'):
@@ -194,7 +203,9 @@ def products(L, R, qs, tier, ells=None, rename=None):
                             ya = {(mp.atom(('in', 'y', 32 * i + 8 * k, 4)),): 1}
                         exp = mp.add(exp, mp.mul(xa, ya))
                     ncmp += 1
-                    if pr.get(8 * k) != exp:
+                    if pr.get(8 * k) != exp and mp.undecided(pr.get(8 * k, {})):
+                        R.broke('%s ell=%d lane %d: contains an operation the congruence rewriting does not model' % (base, ell, k))
+                    elif pr.get(8 * k) != exp:
                         bad_def = bad_def or (ell, 'reference lane %d = %s, expected sum x_i*y_i = %s (mod q%d)' % (
                             k, mp.show(pr.get(8 * k, {})), mp.show(exp), k + 1))
         for rule, bad, key in (('reference-product-is-congruent-to-the-dot-product', bad_def, 'definition'),
